@@ -35,6 +35,47 @@ type xt struct {
 	c    *xt // if-condition / let value
 }
 
+// names of let variables (node kinds 'l' and 'x' carry the index in op)
+var letNames = []string{"x", "y", "z"}
+
+// randLets builds a chain of 2..3 nested lets: every value and the body are small random trees over the
+// atoms and the variables declared so far; a variable may stay unused, a value may or may not be constant.
+func randLets(r interface {
+	IntN(int) int
+	Int64N(int64) int64
+}, t []int64, atoms, nb, nu int64) *xt {
+	depth := 2 + r.IntN(2)
+	small := func(nvars int) *xt {
+		n := r.IntN(3)
+		x := unrank(t, n, r.Int64N(t[n]), atoms, nb, nu)
+		if nvars > 0 {
+			var sub func(*xt)
+			sub = func(y *xt) {
+				if y == nil {
+					return
+				}
+				for _, ch := range []**xt{&y.l, &y.r, &y.c} {
+					if *ch != nil && (*ch).k == 'a' && r.IntN(2) == 0 {
+						*ch = &xt{k: 'x', op: r.IntN(nvars)}
+					} else {
+						sub(*ch)
+					}
+				}
+			}
+			if x.k == 'a' && r.IntN(2) == 0 {
+				return &xt{k: 'x', op: r.IntN(nvars)}
+			}
+			sub(x)
+		}
+		return x
+	}
+	body := small(depth)
+	for v := depth - 1; v >= 0; v-- {
+		body = &xt{k: 'l', op: v, c: small(v), l: body}
+	}
+	return body
+}
+
 // ---------- bool domain ----------
 
 var boolOps = []string{"^", "=", "|", "&"} // ascending priority as in example/bool.go
@@ -116,7 +157,7 @@ func unrank(t []int64, n int, k int64, atoms, nb, nu int64) *xt {
 	panic("unrank out of range")
 }
 
-func boolEval(t *xt, env [4]bool) bool {
+func boolEval(t *xt, env [6]bool) bool {
 	switch t.k {
 	case 'a':
 		switch t.op {
@@ -128,7 +169,7 @@ func boolEval(t *xt, env [4]bool) bool {
 			return false
 		}
 	case 'x':
-		return env[3]
+		return env[3+t.op]
 	case 'u':
 		return !boolEval(t.l, env)
 	case 'b':
@@ -139,7 +180,7 @@ func boolEval(t *xt, env [4]bool) bool {
 		}
 		return boolEval(t.r, env)
 	case 'l':
-		env[3] = boolEval(t.c, env)
+		env[3+t.op] = boolEval(t.c, env)
 		return boolEval(t.l, env)
 	}
 	panic("bad node")
@@ -151,7 +192,7 @@ func boolRender(sb *strings.Builder, t *xt, mode int) {
 	case 'a':
 		sb.WriteString(boolAtoms[t.op])
 	case 'x':
-		sb.WriteString("x")
+		sb.WriteString(letNames[t.op])
 	case 'u':
 		sb.WriteString("!")
 		if t.l.k == 'a' || t.l.k == 'x' {
@@ -197,7 +238,7 @@ func boolRender(sb *strings.Builder, t *xt, mode int) {
 		sb.WriteString(" else ")
 		boolRender(sb, t.r, mode)
 	case 'l':
-		sb.WriteString("let x=")
+		sb.WriteString("let " + letNames[t.op] + "=")
 		boolRender(sb, t.c, mode)
 		sb.WriteString(";")
 		boolRender(sb, t.l, mode)
@@ -272,7 +313,7 @@ func newFloatGen(flags int, opt bool) *floatGen {
 
 // floatEval evaluates the tree; *regroupOK is cleared when some chain of a
 // commutative operator has operands for which re-association is not exact.
-func floatEval(t *xt, env [3]float64, regroupOK *bool) float64 {
+func floatEval(t *xt, env [5]float64, regroupOK *bool) float64 {
 	switch t.k {
 	case 'a':
 		if t.op < 2 {
@@ -280,7 +321,7 @@ func floatEval(t *xt, env [3]float64, regroupOK *bool) float64 {
 		}
 		return floatAtomVal[t.op]
 	case 'x':
-		return env[2]
+		return env[2+t.op]
 	case 'u':
 		v := floatEval(t.l, env, regroupOK)
 		if t.op == 0 {
@@ -303,13 +344,13 @@ func floatEval(t *xt, env [3]float64, regroupOK *bool) float64 {
 		}
 		return floatEval(t.r, env, regroupOK)
 	case 'l':
-		env[2] = floatEval(t.c, env, regroupOK)
+		env[2+t.op] = floatEval(t.c, env, regroupOK)
 		return floatEval(t.l, env, regroupOK)
 	}
 	panic("bad node")
 }
 
-func chainOperands(t *xt, env [3]float64, ok *bool) []float64 {
+func chainOperands(t *xt, env [5]float64, ok *bool) []float64 {
 	var out []float64
 	for t.k == 'b' && t.l.k == 'b' && t.l.op == t.op {
 		out = append(out, floatEval(t.r, env, ok))
@@ -400,7 +441,7 @@ func floatRender(t *xt, mode int) string {
 	case 'a':
 		return floatAtoms[t.op]
 	case 'x':
-		return "x"
+		return letNames[t.op]
 	case 'u':
 		if t.op == 1 {
 			return "sqr(" + floatRender(t.l, mode) + ")"
@@ -446,7 +487,7 @@ func floatRender(t *xt, mode int) string {
 	case 'i':
 		return "if " + floatRender(t.c, mode) + " then " + floatRender(t.l, mode) + " else " + floatRender(t.r, mode)
 	case 'l':
-		return "let x=" + floatRender(t.c, mode) + ";" + floatRender(t.l, mode)
+		return "let " + letNames[t.op] + "=" + floatRender(t.c, mode) + ";" + floatRender(t.l, mode)
 	}
 	panic("bad node")
 }
@@ -490,12 +531,14 @@ func mkC19Plan(tier string) *c19plan {
 	p.segs = append(p.segs, c19seg{"bool-if", blocks(p.ifCount(p.boolT, p.ifMax))})
 	p.segs = append(p.segs, c19seg{"bool-let", blocks(p.letCount(p.boolT, p.boolT6, p.letMax))})
 	p.segs = append(p.segs, c19seg{"bool-sampled", p.samples})
+	p.segs = append(p.segs, c19seg{"bool-lets", p.samples})
 	for n := 0; n <= p.fltMaxN; n++ {
 		p.segs = append(p.segs, c19seg{fmt.Sprintf("float-exh-%d", n), blocks(p.fltT[n])})
 	}
 	p.segs = append(p.segs, c19seg{"float-if", blocks(p.ifCount(p.fltT, p.ifMax-1))})
 	p.segs = append(p.segs, c19seg{"float-let", blocks(p.letCount(p.fltT, p.fltT7, p.letMax-1))})
 	p.segs = append(p.segs, c19seg{"float-sampled", p.samples})
+	p.segs = append(p.segs, c19seg{"float-lets", p.samples})
 	return p
 }
 
@@ -583,7 +626,7 @@ func markLetVar(t *xt, idx int) {
 		return
 	}
 	if t.k == 'a' && t.op == idx {
-		t.k = 'x'
+		t.k, t.op = 'x', 0
 	}
 	markLetVar(t.l, idx)
 	markLetVar(t.r, idx)
@@ -598,8 +641,7 @@ func (c19) Plan(tier string) wk.Plan {
 	}
 	return wk.Plan{
 		Level: "exploration", Cases: n, Chunk: 8, Configs: single("seq", 16), CaseBudget: 300,
-		Exhaustive: true,
-		Rule:       fmt.Sprintf("every bool expression with <=%d operator nodes over {a,b,c,true,false} x all 8 assignments; every float expression with <=%d operator nodes over {a,b,0,1,2,0.5}, 8 binary operators, unary minus, sqr and implicit multiplication x 64 assignments; if-forms (<=%d operator nodes in cond+then+else) and let-forms enumerated completely; larger trees sampled (bool to 8 nodes, float to 6); each expression in minimal and full parenthesisation, optimizer on and off, plus one rotating variant of the commutative flags. A wk case is a block of %d consecutive expressions; evaluations counts expressions. Non-trivial = at least one operator node; enumerated expressions are distinct by construction, sampled ones are hashed.", p.boolMaxN, p.fltMaxN, p.ifMax, p.block),
+		Rule:       fmt.Sprintf("every bool expression with <=%d operator nodes over {a,b,c,true,false} x all 8 assignments; every float expression with <=%d operator nodes over {a,b,0,1,2,0.5}, 8 binary operators, unary minus, sqr and implicit multiplication x 64 assignments; if-forms (<=%d operator nodes in cond+then+else) and single-let forms enumerated completely; larger trees (bool to 8 nodes, float to 6) and chains of 2-3 nested lets (values over earlier variables, used and unused variables) sampled; each expression in minimal and full parenthesisation, optimizer on and off, plus one rotating variant of the commutative flags. A wk case is a block of %d consecutive expressions; evaluations counts expressions. Non-trivial = at least one operator node; enumerated expressions are distinct by construction, sampled ones are hashed.", p.boolMaxN, p.fltMaxN, p.ifMax, p.block),
 		Floor:      1000,
 		Assumptions: []string{
 			"harness-built generators mirror example/bool.go and example/minimal.go (those package variables are unexported); '=' of the float domain is declared non-commutative because the flag licenses re-association",
@@ -666,7 +708,7 @@ func runC19Seg(c *wk.Case, p *c19plan, seg string, blk int64) {
 					return
 				}
 				for as := 0; as < 8; as++ {
-					env := [4]bool{as&1 != 0, as&2 != 0, as&4 != 0, false}
+					env := [6]bool{as&1 != 0, as&2 != 0, as&4 != 0}
 					want := boolEval(t, env)
 					got, err := f.Eval(env[0], env[1], env[2])
 					if err != nil || got != want {
@@ -703,7 +745,7 @@ func runC19Seg(c *wk.Case, p *c19plan, seg string, blk int64) {
 				for _, av := range floatGrid {
 					for _, bv := range floatGrid {
 						ok := true
-						want := floatEval(t, [3]float64{av, bv, 0}, &ok)
+						want := floatEval(t, [5]float64{av, bv}, &ok)
 						got, err := f.Eval(av, bv)
 						same := got == want || (math.IsNaN(got) && math.IsNaN(want))
 						if !same && g.opt && !ok && err == nil {
@@ -800,6 +842,24 @@ func runC19Seg(c *wk.Case, p *c19plan, seg string, blk int64) {
 				sampleOnce(sb.String())
 			}
 			checkBool(t, k, true)
+		}
+	case seg == "bool-lets":
+		for i := int64(0); i < p.block/4; i++ {
+			t := randLets(c.Rng, p.boolT, 5, 4, 1)
+			if i == 0 {
+				var sb strings.Builder
+				boolRender(&sb, t, 0)
+				sampleOnce(sb.String())
+			}
+			checkBool(t, int64(c.Rng.IntN(1<<20)), true)
+		}
+	case seg == "float-lets":
+		for i := int64(0); i < p.block/4; i++ {
+			t := randLets(c.Rng, p.fltT, 6, 8, 2)
+			if i == 0 {
+				sampleOnce(floatRender(t, 0))
+			}
+			checkFloat(t, int64(c.Rng.IntN(1<<20)), true)
 		}
 	case strings.HasPrefix(seg, "float-exh-"):
 		n, _ := strconv.Atoi(seg[len("float-exh-"):])
